@@ -365,12 +365,14 @@ pub struct SignerPolicy {
     pub give_preimages: bool,
     /// use SIGHASH_ALL explicitly for schnorr (65-byte sigs) instead of DEFAULT
     pub schnorr_explicit_all: bool,
+    /// hostile / sloppy co-signer: ECDSA signatures in high-S form (72 or 73 bytes with the sighash byte)
+    pub ecdsa_high_s: bool,
     /// when Some: the only tap leaves this signer signs for
     pub leaf_allow: Option<Vec<TapLeafHash>>,
 }
 
 impl Default for SignerPolicy {
-    fn default() -> Self { SignerPolicy { sign_ecdsa: true, sign_key_spend: true, sign_leaves: true, give_preimages: true, schnorr_explicit_all: false, leaf_allow: None } }
+    fn default() -> Self { SignerPolicy { sign_ecdsa: true, sign_key_spend: true, sign_leaves: true, give_preimages: true, schnorr_explicit_all: false, ecdsa_high_s: false, leaf_allow: None } }
 }
 
 fn prevouts_of(psbt: &Psbt) -> Option<Vec<TxOut>> {
@@ -556,7 +558,10 @@ pub fn signer_sign(
                         _ => {}
                     }
                     if let Ok(r) = refd {
-                        let sig = secp.sign_ecdsa(&Message::from_digest(r), &key.secret);
+                        let mut sig = secp.sign_ecdsa(&Message::from_digest(r), &key.secret);
+                        if policy.ecdsa_high_s {
+                            sig = high_s(&sig);
+                        }
                         psbt.inputs[idx].partial_sigs.insert(key.public, bitcoin::ecdsa::Signature { signature: sig, sighash_type: hash_ty });
                         stats.ecdsa += 1;
                     }
@@ -622,6 +627,28 @@ pub fn drop_invalid_sigs(env: &crate::sim::Env, tx: &Transaction, idx: usize, sa
         Ok(d) => secp.verify_schnorr(&sig.signature, &Message::from_digest(d), &uni.keys[*k].xonly).is_ok(),
         Err(_) => false,
     });
+}
+
+/// The other ECDSA encoding of the same signature: (r, n - s).
+pub fn high_s(sig: &secp256k1::ecdsa::Signature) -> secp256k1::ecdsa::Signature {
+    const N: [u8; 32] = [
+        0xff, 0xff, 0xff, 0xff, 0xff, 0xff, 0xff, 0xff, 0xff, 0xff, 0xff, 0xff, 0xff, 0xff, 0xff, 0xfe, 0xba, 0xae, 0xdc, 0xe6, 0xaf, 0x48, 0xa0, 0x3b, 0xbf, 0xd2, 0x5e, 0x8c, 0xd0, 0x36, 0x41, 0x41,
+    ];
+    let c = sig.serialize_compact();
+    let mut out = [0u8; 64];
+    out[..32].copy_from_slice(&c[..32]);
+    let mut borrow = 0i32;
+    for i in (0..32).rev() {
+        let mut d = N[i] as i32 - c[32 + i] as i32 - borrow;
+        if d < 0 {
+            d += 256;
+            borrow = 1;
+        } else {
+            borrow = 0;
+        }
+        out[32 + i] = d as u8;
+    }
+    secp256k1::ecdsa::Signature::from_compact(&out).unwrap_or(*sig)
 }
 
 /// "God view" satisfier: real signatures by `keys` (subset of the descriptor's keys) over input `idx`
